@@ -12,7 +12,7 @@ interpreted) and the SafeConstructor converters over models of the builtins.  sp
      scalar is projected by re-parsing; members generated from each type's regexp and the scalars of the repository's
      data corpus are loaded; all those observations are judged by TLC with spec/Trace_Types.tla (Denotes).
 """
-import datetime, glob, json, math, os, random, re, sys
+import datetime, glob, json, math, os, random, re, sys, zlib
 from fractions import Fraction
 from .. import tlc, mbt, trace
 from ..common import Verdict, use_repo, REPO, SEED, BUILD, ensure_dir
@@ -31,7 +31,7 @@ def ts_template(full):
     """a date-time, one slot per lexical component (right and wrong alternatives)"""
     if full:
         return [['2001', '0000', '201'], ['-'], ['1', '02', '12', '13'], ['-'], ['1', '29', '30', '31', '32'],
-                ['T', 't', ' ', '\t', ''], ['0', '23', '24'], [':'], ['00', '59', '60'], [':'], ['59', '60'],
+                ['T', 't', ' ', '\t', ''], ['0', '23', '24'], [':'], ['59', '60'], [':'], ['59', '60'],
                 ['', '.', '.5', '.123456', '.1234567'],
                 ['', 'Z', ' Z', 'z', '+1', ' +01', '-01:30', '+23:59', '+24:00', '-25:00', '+1:5', '-00:60', '+05:30:15']]
     return [['2001', '0000'], ['-'], ['1', '02', '13'], ['-'], ['1', '29', '31', '32'], ['T', ' ', '\t', ''],
@@ -46,16 +46,16 @@ PLANS = {
     # all strings over the numeric alphabet (digits of every base class, prefixes, separators, sign)
     'num5': lambda: free('018xb_.:-', 5),
     'num6': lambda: free('018xb_.:-', 6),
-    'num5a': lambda: free('0179aexb_.:+-', 5),
+    'num5a': lambda: free('0179aexb_.-', 5),
     # wider alphabet, shorter
     'wide3': lambda: free(WIDE, 3),
-    'wide4': lambda: free(WIDE, 4),
+    'wide4': lambda: free(WIDE[:20], 4),
     # keywords as macro-symbols
     'kw2': lambda: free(KW, 2),
     'kw3': lambda: free(KW, 3),
     # sexagesimals: free strings and a template (sign, leading group, groups, fraction)
     'sexa5': lambda: free('16:._-', 5),
-    'sexa7': lambda: free('16:._-', 7),
+    'sexa6': lambda: free('16:._-', 6),
     'sexat': lambda: SEXA,
     # dates (10 characters) and date-times (templates)
     'date10': lambda: [['1', '3', '-']] * 4 + [['-']] + [['1', '3', '-']] * 2 + [['-', '1']] + [['1', '3', '0']] * 2,
@@ -69,7 +69,7 @@ PLANS = {
                     ['0', '5', '17', '308', '309', '324', '400', '99999999999']],
 }
 TIERS = {'quick': ['num5', 'wide3', 'kw2', 'sexa5', 'sexat', 'date10', 'ts', 'lf', 'exp'],
-         'thorough': ['num6', 'num5a', 'wide4', 'kw3', 'sexa7', 'sexat', 'date10w', 'tsfull', 'lf', 'exp'],
+         'thorough': ['num6', 'num5a', 'wide4', 'kw3', 'sexa6', 'sexat', 'date10w', 'tsfull', 'lf', 'exp'],
          'smoke': ['kw2', 'lf', 'exp']}
 
 TAGP = 'tag:yaml.org,2002:'
@@ -246,20 +246,32 @@ def outcome_of(yaml, fn):
         return ('exception', type(e).__name__ + ': ' + str(e)[:80])
 
 
-def load_items(yaml, Loader, texts, render):
-    """Load the block sequence of the rendered texts with one loader object; per item -> (style, tag, outcome) or None
-    when the document does not have the expected shape (then the caller retries item by item)."""
-    doc = ''.join('- ' + render(t) + '\n' for t in texts)
+def load_items(yaml, Loader, texts, render, ctx='seq'):
+    """Load the rendered texts as the items of one collection with one loader object (ctx: block sequence, values of a
+    block mapping, or a flow sequence); per item -> (style, tag, outcome), or None when the document does not have the
+    expected shape (then the caller retries item by item)."""
+    if ctx == 'seq':
+        doc = ''.join('- ' + render(t) + '\n' for t in texts)
+    elif ctx == 'map':
+        doc = ''.join('k%d: %s\n' % (i, render(t)) for i, t in enumerate(texts))
+    else:
+        doc = '[' + ', '.join(render(t) for t in texts) + ']\n'
     ld = Loader(doc)
     try:
         try:
             node = ld.get_single_node()
         except yaml.YAMLError:
             return None
-        if not isinstance(node, yaml.SequenceNode) or len(node.value) != len(texts):
-            return None
+        if ctx == 'map':
+            if not isinstance(node, yaml.MappingNode) or len(node.value) != len(texts):
+                return None
+            nodes = [kv[1] for kv in node.value]
+        else:
+            if not isinstance(node, yaml.SequenceNode) or len(node.value) != len(texts):
+                return None
+            nodes = node.value
         out = []
-        for item, t in zip(node.value, texts):
+        for item, t in zip(nodes, texts):
             if not isinstance(item, yaml.ScalarNode) or item.value != t:
                 return None
             out.append((item.style, item.tag, outcome_of(yaml, lambda: ld.construct_object(item, deep=True))))
@@ -268,13 +280,15 @@ def load_items(yaml, Loader, texts, render):
         ld.dispose()
 
 
-def load_each(yaml, Loader, texts, render):
-    res = load_items(yaml, Loader, texts, render) if len(texts) > 1 else None
+def load_each(yaml, Loader, texts, render, ctx='seq'):
+    res = load_items(yaml, Loader, texts, render, ctx)
     if res is not None:
         return res
+    if len(texts) == 1:
+        return [None]
     out = []
     for t in texts:
-        r = load_items(yaml, Loader, [t], render) if len(texts) > 1 or True else None
+        r = load_items(yaml, Loader, [t], render, ctx)
         out.append(r[0] if r else None)
     return out
 
@@ -342,10 +356,15 @@ def work(states, extra):
     easy = [it for it in items if not _SUSPECT.search(it[0])]
     hard = [it for it in items if _SUSPECT.search(it[0])]
     for L in loaders:
-        groups = [easy[i:i + BATCH] for i in range(0, len(easy), BATCH)] + [[it] for it in hard]
-        for grp in groups:
+        groups = [('seq', easy[i:i + BATCH]) for i in range(0, len(easy), BATCH)] + [('seq', [it]) for it in hard]
+        # the same scalar as a mapping value and inside a flow sequence (quick: a quarter of the texts)
+        other = [it for it in easy if extra['literal'] or zlib.crc32(it[0].encode()) % 4 == extra['seed'] % 4]
+        for ctx in ('map', 'flow'):
+            groups += [(ctx, other[i:i + BATCH]) for i in range(0, len(other), BATCH)]
+        for ctx, grp in groups:
             texts = [g[0] for g in grp]
-            outs = load_each(yaml, L, texts, lambda t: t)
+            outs = load_each(yaml, L, texts, lambda t: t, ctx)
+            via = L.__name__ if ctx == 'seq' else L.__name__ + '/' + ctx
             for (text, hcls, hval, dev), o in zip(grp, outs):
                 if o is None or o[0] not in (None, ''):
                     continue               # the text cannot be written as a plain scalar here: nothing to judge
@@ -355,23 +374,23 @@ def work(states, extra):
                 if len(res['traces']) < extra['sample'] and rnd.random() < 0.02:
                     res['traces'].append((text, True, oc, val if oc == 'ok' else None, L.__name__))
                 if oc == 'exception':
-                    bad('load', L.__name__, text, hcls, hval, 'exception:' + val.split(':')[0], val)
+                    bad('load', via, text, hcls, hval, 'exception:' + val.split(':')[0], val)
                     continue
                 if tag != TAGP + hcls:
-                    bad('load', L.__name__, text, hcls, hval, tag.replace(TAGP, ''), 'composed with tag %s' % tag)
+                    bad('load', via, text, hcls, hval, tag.replace(TAGP, ''), 'composed with tag %s' % tag)
                     continue
                 if hval[0] in ('undefined', 'merge', 'value'):
                     continue               # no value defined: a YAML error or any value
                 if oc == 'error':
-                    bad('load', L.__name__, text, hcls, hval, 'error:' + val, 'YAML error for a text that has a value')
+                    bad('load', via, text, hcls, hval, 'error:' + val, 'YAML error for a text that has a value')
                     continue
                 why = value_matches(hval, val, text)
                 if why:
-                    bad('load', L.__name__, text, hcls, hval, 'value', why)
+                    bad('load', via, text, hcls, hval, 'value', why)
         for name, render, ok in (('single', q_single, lambda t: '\n' not in t),
                                  ('double', q_double, lambda t: True),
                                  ('literal', q_literal, lambda t: t and t[0] not in ' \t' and '\n' not in t)):
-            sel = [it for it in items if ok(it[0]) and (name != 'literal' or extra['literal'] or hash(it[0]) % 4 == 0)]
+            sel = [it for it in items if ok(it[0]) and (name != 'literal' or extra['literal'] or zlib.crc32(it[0].encode()) % 4 == 0)]
             for i in range(0, len(sel), BATCH):
                 grp = sel[i:i + BATCH]
                 outs = load_each(yaml, L, [g[0] for g in grp], render)
@@ -402,7 +421,7 @@ def work(states, extra):
                 continue
             for (text, hcls, hval, dev), ev, b in zip(grp, evs, back):
                 res['obs'] += 1
-                plain = ev.style in (None, '') and ev.tag is None
+                plain = bool(ev.implicit[0])        # resolved by the plain-scalar rules when read
                 if plain and hcls != 'str':
                     bad('dump-str', D.__name__, text, hcls, hval, 'plain', 'str %r written as plain scalar %r' % (text, ev.value))
                 elif type(b) is not str:
@@ -495,6 +514,12 @@ def observe_dumps(yaml, vals, dumpers, opts):
             try:
                 out = yaml.dump(grp, Dumper=D, **opts)
                 evs = [e for e in yaml.parse(out) if isinstance(e, yaml.ScalarEvent)]
+                try:
+                    back = yaml.load(out, Loader=yaml.CSafeLoader if Dn.startswith('C') else yaml.SafeLoader)
+                except Exception:
+                    back = None
+                if not isinstance(back, list) or len(back) != len(grp):
+                    back = None
             except Exception as e:
                 evs, out = None, '%s: %s' % (type(e).__name__, e)
             if evs is None or len(evs) != len(grp):
@@ -505,26 +530,52 @@ def observe_dumps(yaml, vals, dumpers, opts):
                         o1 = yaml.dump([v], Dumper=D, **opts)
                         e1 = [e for e in yaml.parse(o1) if isinstance(e, yaml.ScalarEvent)]
                         assert len(e1) == 1, o1
-                        obs.append((mk_dump(e1[0], ot, ov), {'dumper': Dn, 'value': repr(v), 'feature': value_feature(v), 'opts': opts}))
+                        try:
+                            b1 = yaml.load(o1, Loader=yaml.CSafeLoader if Dn.startswith('C') else yaml.SafeLoader)
+                            rb = isinstance(b1, list) and len(b1) == 1 and same_value(b1[0], v)
+                        except Exception:
+                            rb = False
+                        obs.append((mk_dump(e1[0], ot, ov, rb), {'dumper': Dn, 'value': repr(v), 'feature': value_feature(v), 'opts': opts}))
                     except yaml.YAMLError as e:
-                        obs.append(({'kind': 'dump', 'text': [], 'plain': False, 'tag': 'none', 'ot': ot, 'ov': ov},
+                        obs.append(({'kind': 'dump', 'text': [], 'plain': False, 'tag': 'none', 'ot': ot, 'ov': ov, 'rb': False},
                                     {'dumper': Dn, 'value': repr(v), 'feature': value_feature(v), 'opts': opts, 'error': str(e)[:100]}))
                     except Exception as e:
-                        obs.append(({'kind': 'dump', 'text': [], 'plain': False, 'tag': '', 'ot': 'exception', 'ov': {}},
+                        obs.append(({'kind': 'dump', 'text': [], 'plain': False, 'tag': '', 'ot': 'exception', 'ov': {}, 'rb': False},
                                     {'dumper': Dn, 'value': repr(v), 'feature': value_feature(v), 'opts': opts, 'error': '%s: %s' % (type(e).__name__, e)}))
                 continue
-            for v, ev in zip(grp, evs):
+            for j, (v, ev) in enumerate(zip(grp, evs)):
                 ot, ov = digest(v)
-                obs.append((mk_dump(ev, ot, ov), {'dumper': Dn, 'value': repr(v), 'feature': value_feature(v), 'opts': opts}))
+                if back is not None:
+                    rb = same_value(back[j], v)
+                elif ev.implicit[0] or ev.implicit[1]:
+                    rb = False                  # not used for untagged scalars
+                else:                           # the batch did not load (another item): read this one back alone
+                    try:
+                        b1 = yaml.load(yaml.dump([v], Dumper=D, **opts), Loader=yaml.CSafeLoader if Dn.startswith('C') else yaml.SafeLoader)
+                        rb = isinstance(b1, list) and len(b1) == 1 and same_value(b1[0], v)
+                    except Exception:
+                        rb = False
+                obs.append((mk_dump(ev, ot, ov, rb), {'dumper': Dn, 'value': repr(v), 'feature': value_feature(v), 'opts': opts}))
     return obs
 
 
-def mk_dump(ev, ot, ov):
+def same_value(a, b):
+    if type(a) is not type(b):
+        return False
+    if type(a) is float:
+        return same_float(a, b)
+    if type(a) is datetime.datetime:
+        return (a.tzinfo is None) == (b.tzinfo is None) and a == b
+    return a == b
+
+
+def mk_dump(ev, ot, ov, rb=False):
+    """projection of an emitted scalar: `plain` = the parser says it is resolved by the plain-scalar rules (an untagged
+    plain scalar, or any style under the non-specific tag '!'); tag = explicit tag, '' when the tag is left to the resolver"""
     tag = ''
-    if ev.tag is not None and ev.tag != '!':
-        tag = ev.tag[len(TAGP):] if ev.tag.startswith(TAGP) else 'foreign'
-    return {'kind': 'dump', 'text': chars(ev.value), 'plain': ev.style in (None, '') and ev.tag is None, 'tag': tag,
-            'ot': ot, 'ov': ov}
+    if not (ev.implicit[0] or ev.implicit[1]):
+        tag = ev.tag[len(TAGP):] if ev.tag and ev.tag.startswith(TAGP) else 'foreign'
+    return {'kind': 'dump', 'text': chars(ev.value), 'plain': bool(ev.implicit[0]), 'tag': tag, 'ot': ot, 'ov': ov, 'rb': rb}
 
 
 def regex_members(yaml, rnd, count):
@@ -628,7 +679,7 @@ def observe_loads(yaml, texts, loaders):
                             ot = 'other:str-changed'
                     else:
                         ot, ov = oc, {}
-                    obs.append(({'kind': 'load', 'text': chars(t), 'plain': plain, 'tag': '', 'ot': ot, 'ov': ov},
+                    obs.append(({'kind': 'load', 'text': chars(t), 'plain': plain, 'tag': '', 'ot': ot, 'ov': ov, 'rb': True},
                                  {'loader': Ln, 'text': t, 'plain': plain, 'got': repr(val)[:80]}))
     return obs
 
@@ -639,14 +690,14 @@ def sample_records(sampled):
     out = []
     for text, plain, oc, val, who in sampled:
         if oc == 'dump-str':
-            out.append(({'kind': 'dump', 'text': chars(text), 'plain': plain, 'tag': '', 'ot': 'str', 'ov': {}},
+            out.append(({'kind': 'dump', 'text': chars(text), 'plain': plain, 'tag': '', 'ot': 'str', 'ov': {}, 'rb': True},
                         {'dumper': who, 'value': repr(text), 'feature': 'enumerated str'}))
         else:
             if oc == 'ok':
                 ot, ov = digest(val, text.count(':') + 1)
             else:
                 ot, ov = oc, {}
-            out.append(({'kind': 'load', 'text': chars(text), 'plain': plain, 'tag': '', 'ot': ot, 'ov': ov},
+            out.append(({'kind': 'load', 'text': chars(text), 'plain': plain, 'tag': '', 'ot': ot, 'ov': ov, 'rb': True},
                         {'loader': who, 'text': text, 'plain': plain, 'got': repr(val)[:80]}))
     return out
 
@@ -656,8 +707,8 @@ def main(tier, replay=None):
     yaml = use_repo()
     rnd = random.Random(SEED * 7919 + 8)
     quick = tier == 'quick'
-    loaders = ['SafeLoader', 'CSafeLoader'] if quick else ['SafeLoader', 'CSafeLoader', 'FullLoader', 'CFullLoader']
-    dumpers = ['SafeDumper', 'CSafeDumper'] if quick else ['SafeDumper', 'CSafeDumper', 'Dumper', 'CDumper']
+    loaders = ['SafeLoader', 'CSafeLoader'] if quick else ['SafeLoader', 'CSafeLoader', 'FullLoader']
+    dumpers = ['SafeDumper', 'CSafeDumper'] if quick else ['SafeDumper', 'CSafeDumper', 'Dumper']
 
     # ---- (a) TLC: enumeration + design check
     names = TIERS[tier]
